@@ -69,9 +69,9 @@ def main(argv):
                 if kind == "hist":
                     im = fields(impl)
                     agrees = norm(impl) == model
-                    if im.get("F") != im.get("H") or im.get("S") != "same":
+                    if im.get("F") != im.get("H") or im.get("S") != "same" or im.get("A", "same") != "same":
                         prop_fail.append({"input": inp, "implementation": impl, "model": model, "agrees_with_model": agrees,
-                                          "kind": "history: the same text parses differently (or Reset leaves different state) after earlier inputs on the same parser",
+                                          "kind": "history: the same text parses differently after earlier inputs on the same parser, or Reset leaves different state, or expressions returned for an earlier text were changed by a later parse",
                                           "finding": None})
                     elif not agrees:
                         corr_fail.append({"input": inp, "implementation": impl, "model": model, "what": "parse after history"})
@@ -97,7 +97,7 @@ def main(argv):
                     elif not agrees:
                         corr_fail.append({"input": inp, "implementation": impl, "model": model, "what": "REPL line reader vs delivery of lines in the model"})
                     continue
-                if kind != "chunk":
+                if kind not in ("chunk", "queue"):
                     continue
                 im = fields(impl)
                 mo = fields(model)
